@@ -226,6 +226,11 @@ def norm_bits(t, ctx: BitCtx):
             x = norm_bits(a, ctx)
             if x is not None and x.high_clear(1):
                 return BV([x.get(0)], 0)
+            if x is not None and x.ext == 0:
+                # bool() of a value with exactly one possibly-set bit is that bit
+                nz = [b for b in x.bits if b != 0]
+                if len(nz) == 1:
+                    return BV([nz[0]], 0)
             return BV([TOP], 0)
         if o == "~":
             x = norm_bits(a, ctx)
